@@ -681,10 +681,17 @@ func main() {
 				die("crash of run %d (class %s) did not reproduce when run alone: nondeterministic harness or cross-run state", v.Index, v.Class)
 			}
 			c2, k2, _ := crashClass(res.exit, res.stderr)
-			if res.crashed && c2 != v.Class {
-				die("crash of run %d reproduced with a different class (%s vs %s)", v.Index, c2, v.Class)
+			if res.crashed && (c2 != v.Class || k2 != v.Key) {
+				// inside a batch the same defect may kill the worker in another way
+				// (a panic on corrupted state instead of the race report that is
+				// seen first when the run executes alone): the alone execution is
+				// the one the replay reproduces, so it names the violation
+				rf.Note += fmt.Sprintf("; in its batch the run died as %s|%s", v.Class, v.Key)
+				v.Class, v.Key = c2, k2
+				_, _, v.Detail = crashClass(res.exit, res.stderr)
+				rf.Class, rf.Key, rf.Detail = v.Class, v.Key, v.Detail
+				writeJSON(rpath, rf)
 			}
-			_ = k2
 			// recover the tape of the crashing run through the memory-mapped mirror,
 			// then minimise it at process level (each attempt is a fresh worker)
 			if res.crashed && os.Getenv("VERIF_NO_SHRINK") == "" {
